@@ -104,12 +104,27 @@ def attr_key(n):
     # tag INSTANCES (tags may carry parameters, e.g. FunctionIdentifier) belong to the fingerprint;
     # NodeData.tags lists the tag TYPES only (what TagCountMapper looks at)
     if isinstance(n, DictOfNamedArrays):
-        return ("DictOfNamedArrays", tuple(sorted(n._data)), n.tags)
+        return ("DictOfNamedArrays", tuple(sorted(n._data)), _param_tags(n.tags))
     if isinstance(n, FunctionDefinition):
-        return ("FunctionDefinition", n.parameters, n.return_type, tuple(sorted(n.returns)), n.tags)
+        return ("FunctionDefinition", n.parameters, n.return_type, tuple(sorted(n.returns)),
+                _param_tags(n.tags))
     return (type(n).__name__,) + tuple(
-        (f.name, _tok(getattr(n, f.name))) for f in dataclasses.fields(n)
-        if f.name != "non_equality_tags")
+        (f.name, _param_tags(getattr(n, f.name)) if f.name == "tags" else _tok(getattr(n, f.name)))
+        for f in dataclasses.fields(n) if f.name != "non_equality_tags")
+
+
+def _param_tags(tags):
+    """the part of a tag set that the list of tag TYPE names (NodeData.tags) does not capture:
+    tags with parameters (e.g. FunctionIdentifier(identifier=…)); parameterless tags are fully
+    described by their type name and are left to NodeData.tags (so that the model's relabelling,
+    which adds / drops parameterless tags, changes structural equality exactly as in the code)"""
+    import dataclasses
+    out = []
+    for tg in tags:
+        if dataclasses.is_dataclass(tg) and not dataclasses.fields(tg):
+            continue
+        out.append((type(tg).__name__, tg))
+    return frozenset(out)
 
 
 def excl(pairs) -> str:
